@@ -211,6 +211,9 @@ def or_default(v, d):
     return v if v is not None else d
 
 
+REQUESTED_VALUES = "implies(PropertyId.BREEZE_CONTROL in P, P[PropertyId.BREEZE_CONTROL] == old(self._breeze_mode)) and implies(PropertyId.BREEZE_AWAY in P, P[PropertyId.BREEZE_AWAY] == (old(self._breeze_mode) == AirConditioner.BreezeMode.BREEZE_AWAY)) and implies(PropertyId.BREEZELESS in P, P[PropertyId.BREEZELESS] == (old(self._breeze_mode) == AirConditioner.BreezeMode.BREEZELESS)) and implies(PropertyId.IECO in P, P[PropertyId.IECO] == old(self._ieco)) and implies(PropertyId.RATE_SELECT in P, P[PropertyId.RATE_SELECT] == old(self._rate_select)) and implies(PropertyId.SWING_LR_ANGLE in P, P[PropertyId.SWING_LR_ANGLE] == old(self._horizontal_swing_angle)) and implies(PropertyId.SWING_UD_ANGLE in P, P[PropertyId.SWING_UD_ANGLE] == old(self._vertical_swing_angle))"
+REQUESTED_VALUES_SENT = "implies(PropertyId.BREEZE_CONTROL in S[1]._properties, S[1]._properties[PropertyId.BREEZE_CONTROL] == old(self._breeze_mode)) and implies(PropertyId.BREEZE_AWAY in S[1]._properties, S[1]._properties[PropertyId.BREEZE_AWAY] == (old(self._breeze_mode) == AirConditioner.BreezeMode.BREEZE_AWAY)) and implies(PropertyId.BREEZELESS in S[1]._properties, S[1]._properties[PropertyId.BREEZELESS] == (old(self._breeze_mode) == AirConditioner.BreezeMode.BREEZELESS)) and implies(PropertyId.IECO in S[1]._properties, S[1]._properties[PropertyId.IECO] == old(self._ieco)) and implies(PropertyId.RATE_SELECT in S[1]._properties, S[1]._properties[PropertyId.RATE_SELECT] == old(self._rate_select)) and implies(PropertyId.SWING_LR_ANGLE in S[1]._properties, S[1]._properties[PropertyId.SWING_LR_ANGLE] == old(self._horizontal_swing_angle)) and implies(PropertyId.SWING_UD_ANGLE in S[1]._properties, S[1]._properties[PropertyId.SWING_UD_ANGLE] == old(self._vertical_swing_angle))"
+
 contract(AC + ".apply",
          params={"self": "obj:" + AC}, globals=G,
          modifies=ALL_UPDATED + ["self._supported", "self._updated_properties", "Command._message_id"],
@@ -241,6 +244,9 @@ contract(AC + ".apply",
              "c16.one_write_when_changed": "implies(len(old(self._updated_properties)) > 0, len(S) == 2 and isinstance(S[1], SetPropertiesCommand))",
              "c16.changes_cleared": "implies(len(old(self._updated_properties)) > 0, len(self._updated_properties) == 0)",
              "c16.changes_kept_when_none": "implies(len(old(self._updated_properties)) == 0, self._updated_properties == old(self._updated_properties))",
+             # C16/C01: what is written is what the user set before apply() - whatever the device sends back during the state exchange
+             "c16.values_are_the_requested_settings": "implies(len(old(self._updated_properties)) > 0, " + REQUESTED_VALUES_SENT + ")",
+             "c16.exactly_the_changed_ids": "implies(len(old(self._updated_properties)) > 0, all((pid in S[1]._properties) == (pid in old(self._updated_properties)) for pid in [PropertyId.BREEZE_AWAY, PropertyId.BREEZE_CONTROL, PropertyId.BREEZELESS, PropertyId.IECO, PropertyId.RATE_SELECT, PropertyId.SWING_LR_ANGLE, PropertyId.SWING_UD_ANGLE]))",
          },
          loops={"0": {"match": "_send_command_get_responses", "modifies": ALL_UPDATED}})
 
